@@ -307,6 +307,8 @@ struct Shared {
     next_val: u64,
     events: Vec<(usize, usize, u8)>,
     counts: std::collections::BTreeMap<String, u64>,
+    /// types whose address-changing cast was already rejected when the type was registered
+    bad_rejected: Vec<u8>,
 }
 
 fn vio(prop: &str, class: &str, msg: String) -> Violation {
@@ -385,9 +387,8 @@ fn exec_op<'w>(sc: &Scen, w: &'w World, table: &'w MetaTable<dyn HObj>, bad: &'w
                     let msg = crate::util::payload_string(&p);
                     if !expect_panic {
                         sh.out.push(vio("C08", "unexpected-panic", format!("operation #{} of task {} ({:?}) panicked ({}), the borrow model allows the borrow", step, t, op, msg.lines().next().unwrap_or(""))));
-                    } else if conflict && !crate::util::is_borrow_panic(&msg) {
-                        sh.out.push(vio("C08", "wrong-panic", format!("operation #{} of task {} ({:?}): expected a borrow-conflict panic, got: {}", step, t, op, msg.lines().next().unwrap_or(""))));
                     }
+                    // (the wording of the refusal is the implementation's business)
                 }
                 Ok(None) => {
                     if !expect_none {
@@ -518,7 +519,13 @@ fn exec_op<'w>(sc: &Scen, w: &'w World, table: &'w MetaTable<dyn HObj>, bad: &'w
                     }
                 }
                 let busy = |l: usize| sh.res[l].excl || (excl && sh.res[l].shared > 0);
-                let conflict = passed.iter().any(|&l| busy(l)) || target.map(|(l, _)| busy(l)).unwrap_or(false);
+                // a busy item that is only passed over: the default `nth` borrows it on the way
+                // (and panics); an implementation that steps over it without borrowing is just as
+                // correct - either outcome is accepted then
+                let conflict_target = target.map(|(l, _)| busy(l)).unwrap_or(false);
+                let conflict_passed = passed.iter().any(|&l| busy(l));
+                let conflict = conflict_target || conflict_passed;
+                let either = conflict_passed && !conflict_target;
                 drop(sh);
                 let r = catch_unwind(AssertUnwindSafe(|| match &mut tc.iters[i].0 {
                     It::R(x) => (if nskip == 0 { x.next() } else { x.nth(nskip) }).map(|g| (g.htag(), g.haddr(), Box::new(GMetaR(g)) as Box<dyn Held<'w> + 'w>)),
@@ -549,7 +556,7 @@ fn exec_op<'w>(sc: &Scen, w: &'w World, table: &'w MetaTable<dyn HObj>, bad: &'w
                     Ok(Some((tag, addr, g))) => match target {
                         None => sh.out.push(vio("C17", "extra-item", format!("operation #{} of task {} ({:?}): iteration yielded an object of type {}, the reference list is exhausted", step, t, op, tag))),
                         Some((l, ty)) => {
-                            if conflict {
+                            if conflict && !either {
                                 sh.out.push(vio("C08", "aliasing-guard", format!("operation #{} of task {} ({:?}): the iterator yielded resource {} although it is borrowed incompatibly", step, t, op, l)));
                             }
                             if tag != ty {
@@ -617,10 +624,12 @@ fn exec_op<'w>(sc: &Scen, w: &'w World, table: &'w MetaTable<dyn HObj>, bad: &'w
                 match r {
                     Err(p) => {
                         let msg = crate::util::payload_string(&p);
-                        if !registered || !msg.contains("did not cast") {
+                        // (any panic is a rejection; its wording is the implementation's business)
+                        if !registered {
                             sh.out.push(vio("C17", "bad-cast-wrong-panic", format!("operation #{} of task {} ({:?}): unexpected panic {}", step, t, op, msg.lines().next().unwrap_or(""))));
                         }
                     }
+                    Ok(Some(_)) if sh.bad_rejected.contains(&ty) => {}
                     Ok(Some(found)) => {
                         if registered {
                             sh.out.push(vio("C17", "bad-cast-accepted", format!("operation #{} of task {} ({:?}): a cast implementation that changes the address was not rejected (get returned Some={})", step, t, op, found)));
@@ -685,7 +694,10 @@ pub fn run_scen(sc: &Scen, strat: &StratSpec, seed: u64, replay: Option<Vec<u32>
     for &t in &sc.reg {
         with_r!(t, T => {
             table.register::<T>();
-            bad.register::<T>();
+            // an implementation may reject the address-changing cast right here
+            if catch_unwind(AssertUnwindSafe(|| bad.register::<T>())).is_err() && !shared.bad_rejected.contains(&t) {
+                shared.bad_rejected.push(t);
+            }
         });
     }
     let world = Arc::new(world);
@@ -1111,7 +1123,7 @@ pub mod big {
         }
         // registrations interleaved with queries: the reference list grows with them
         let mut order: Vec<u16> = Vec::new();
-        let mut check_all = |t: &MetaTable<dyn BObj>, bad: &MetaTable<dyn BBad>, order: &[u16], when: usize, out: &mut Vec<Violation>| {
+        let mut check_all = |t: &MetaTable<dyn BObj>, bad: &MetaTable<dyn BBad>, order: &[u16], when: usize, out: &mut Vec<Violation>, bad_rej: &[usize]| {
             for (i, ty) in tys.iter().enumerate() {
                 let registered = order.contains(&(i as u16));
                 for (which, f) in [("get", ty.get), ("get_mut", ty.get_mut)] {
@@ -1130,14 +1142,13 @@ pub mod big {
                         }
                     }
                 }
-                if registered && sc.present.get(i).copied().unwrap_or(false) {
+                if registered && sc.present.get(i).copied().unwrap_or(false) && !bad_rej.contains(&i) {
                     checks += 1;
                     match catch_unwind(AssertUnwindSafe(|| (ty.bad_get)(bad, &w))) {
                         Err(p) => {
                             let m = crate::util::payload_string(&p);
-                            if !m.contains("did not cast") {
-                                out.push(vio("C17", "bad-cast-wrong-panic", format!("type {}: {}", i, m.lines().next().unwrap_or(""))));
-                            }
+                            // any panic is a rejection
+                            let _ = m;
                         }
                         Ok(_) => out.push(vio("C17", "bad-cast-accepted", format!("after {} registrations: a cast implementation that changes the address was not rejected for type {}{}", when, i, if i == 24 { " (zero-sized)" } else { "" }))),
                     }
@@ -1171,19 +1182,22 @@ pub mod big {
             }
         };
         let every = (sc.reg.len() / 4).max(1);
+        let mut bad_rejected: Vec<usize> = Vec::new();
         for (k, &ty) in sc.reg.iter().enumerate() {
             let i = ty as usize % tys.len();
             (tys[i].reg)(&mut t);
-            (tys[i].reg_bad)(&mut bad);
+            if catch_unwind(AssertUnwindSafe(|| (tys[i].reg_bad)(&mut bad))).is_err() && !bad_rejected.contains(&i) {
+                bad_rejected.push(i);
+            }
             if !order.contains(&(i as u16)) {
                 order.push(i as u16);
             }
             if (k + 1) % every == 0 && out.is_empty() {
-                check_all(&t, &bad, &order, k + 1, &mut out);
+                check_all(&t, &bad, &order, k + 1, &mut out, &bad_rejected);
             }
         }
         if out.is_empty() {
-            check_all(&t, &bad, &order, sc.reg.len(), &mut out);
+            check_all(&t, &bad, &order, sc.reg.len(), &mut out, &bad_rejected);
         }
         out.truncate(4);
         (out, checks)
